@@ -52,6 +52,11 @@ def make_systems(seat: int, rnd, dec: Decisions, style: Dict[str, Any],
             mode = style.get('auction', 'short')
             script = style.get('script')
             board = holder['client'].board_num
+            th = style.get('think')
+            if th and th['board'] == board and ncalls == th.get('at', 0) and not holder.get('thought'):
+                # this seat's program takes its time (virtual seconds) over one call
+                holder['thought'] = True
+                holder['sched'].clock += th['seconds']
             if board in style.get('passout_boards', ()):
                 c = 35
             elif script is not None:
@@ -84,7 +89,13 @@ def make_systems(seat: int, rnd, dec: Decisions, style: Dict[str, Any],
         def play(self, hand, env):
             legal = sorted(cnum(c) for c in env.current_available_cards(hand))
             held = sorted(cnum(c) for c in hand)
-            if style.get('play', 'legal') == 'revoke' and rnd.random() < 0.3:
+            if style.get('play', 'legal') == 'lowest':
+                c = legal[0]                  # deterministic: rotated deals are played alike
+            elif style.get('play') == 'ruff-low':
+                # follow with a random card, but ruff (or discard) with the lowest card held
+                led_suits = {x // 13 for x in legal}
+                c = legal[0] if len(led_suits) > 1 else rnd.choice(legal)
+            elif style.get('play', 'legal') == 'revoke' and rnd.random() < 0.3:
                 c = rnd.choice(held)
             else:
                 c = rnd.choice(legal)
@@ -332,7 +343,7 @@ class _Table:
             seat = rq['seat']
             crnd = _random.Random(rnd.randrange(1 << 30))
             style = (cfg.get('styles') or [{}] * 4)[seat]
-            holder: Dict[str, Any] = {}
+            holder: Dict[str, Any] = {'sched': sched}
             bs, ps = make_systems(seat, crnd, dec, style, holder)
             fault = cfg.get('fault')
             mang = Mangler(crnd, cfg.get('vary', False),
